@@ -60,10 +60,13 @@ def regex_tokens(pattern):
 
 
 def pattern_is_unix(body):
-    """[0-9]+[,.]?[0-9]*"""
+    """-?[0-9]+[,.]?[0-9]*  (the optional minus sign since fix F17)"""
     try:
-        a, b, c = body
+        sg, a, b, c = body
     except ValueError:
+        return False
+    if not (sg[0] is sre_c.MAX_REPEAT and sg[1][0] == 0 and sg[1][1] == 1 and
+            list(sg[1][2]) == [(sre_c.LITERAL, 45)]):
         return False
     ok_a = a[0] is sre_c.MAX_REPEAT and a[1][0] == 1 and a[1][1] == sre_c.MAXREPEAT and digits_class(list(a[1][2])[0])
     ok_b = b[0] is sre_c.MAX_REPEAT and b[1][0] == 0 and b[1][1] == 1 and \
